@@ -119,7 +119,7 @@ pub fn absorb(r: &mut Report, args: &Args, case_idx: u64, m: Mon, w: &W, extra: 
         r.hits(&k, v);
     }
     if !m.viols.is_empty() {
-        let log = dump_log(w, 120);
+        let log = dump_log(w, if args.only_case.is_some() { 3000 } else { 120 });
         for (rule, sig, detail) in m.viols {
             let mut rp = args.case_replay(case_idx);
             rp["log_tail"] = json!(log);
